@@ -370,9 +370,11 @@ func c07d(c *Ctx) {
 	if a == nil || b == nil {
 		return
 	}
-	sa, sb := normalizedSource(c.P.Fset, a.Decl.Body), normalizedSource(c.P.Fset, b.Decl.Body)
-	if sa == sb && paramNames(a) == paramNames(b) {
-		c.OK("computeCacheHash copies", "ctlog and recompute-cache bodies are identical (comments and layout ignored)", []string{a.Pos(a.Decl), b.Pos(b.Decl)})
+	sca, ea := builderSchema(a, nil)
+	scb, eb := builderSchema(b, nil)
+	sameHash := hashFinal(a) != "" && hashFinal(a) == hashFinal(b)
+	if ea == nil && eb == nil && sca.String() == scb.String() && sca.String() != "" && paramNames(a) == paramNames(b) && sameHash {
+		c.OK("computeCacheHash copies", "ctlog and recompute-cache write the same byte schema from the same parameters and hash it the same way: "+sca.String(), []string{a.Pos(a.Decl), b.Pos(b.Decl)})
 	} else {
 		c.Bad("computeCacheHash copies", b.Pos(b.Decl), "the two copies of computeCacheHash differ: keys written by recompute-cache would not be found by the log")
 	}
@@ -399,11 +401,12 @@ func c07d(c *Ctx) {
 	}
 }
 
+// paramNames renders the parameter list by type only (names are free).
 func paramNames(f *Func) string {
 	var out []string
 	for _, fl := range f.Type.Params.List {
-		for _, n := range fl.Names {
-			out = append(out, n.Name+":"+exprString(fl.Type))
+		for range fl.Names {
+			out = append(out, exprString(fl.Type))
 		}
 	}
 	return strings.Join(out, ",")
@@ -764,4 +767,21 @@ func c07g(c *Ctx) {
 		}
 	}
 	c.add(Result{Instance: f.Name + " index guard", Verdict: Discharged, Sites: []string{ins[0].Pos()}, Evals: 2, Detail: "INSERT only when se.LeafIndex == i; values from se", Witnesses: f.WitEdges(safe)})
+}
+
+// hashFinal names the hash applied to the builder's bytes in the return
+// statement of a cache-key function (e.g. "crypto/sha256.Sum256").
+func hashFinal(f *Func) string {
+	out := ""
+	for _, r := range f.Returns() {
+		ast.Inspect(r.X, func(n ast.Node) bool {
+			if call, ok := n.(*ast.CallExpr); ok {
+				if fn, ok := calleeObj(f.Info(), call).(*types.Func); ok && fn.Pkg() != nil && strings.HasPrefix(fn.Pkg().Path(), "crypto/") {
+					out = fn.Pkg().Path() + "." + fn.Name()
+				}
+			}
+			return true
+		})
+	}
+	return out
 }
